@@ -21,37 +21,48 @@ VARIABLES FilterCfg,    \* [[filter]] sections in order: [channels : Seq(name), 
           conns,        \* accepted connections in order: [c : [proto, ip, port, first, src], svc : chosen service | "none"]
           sent,         \* events put on the bus, in order: [id, conn, cat, svc (field), src, token, fatal]
           panicked,     \* connections whose handler panicked (recovered by the server: the connection is over)
+          beat,         \* number of heartbeat events sent so far (one every 30 s, sequence numbers 0, 1, 2, ...)
           delivered     \* delivered[ch]: ids in arrival order (maintained by Bus!Fanout)
-vars == <<FilterCfg, conns, sent, panicked, delivered>>
+vars == <<FilterCfg, conns, sent, panicked, beat, delivered>>
 
 B == INSTANCE Bus WITH filters <- FilterCfg
 
-Init(fs) == FilterCfg = fs /\ conns = <<>> /\ sent = <<>> /\ panicked = {} /\ delivered = [c \in Channels |-> <<>>]
+Init(fs) == FilterCfg = fs /\ conns = <<>> /\ sent = <<>> /\ panicked = {} /\ beat = 0 /\ delivered = [c \in Channels |-> <<>>]
 
 \* a client connects and sends its first segment: the first configured service that accepts it gets the connection
 Accept(c) ==
   /\ conns' = Append(conns, [c |-> c, svc |-> Rule(Candidates(Table(Entries), c), c.first)])
-  /\ UNCHANGED <<FilterCfg, sent, panicked, delivered>>
+  /\ UNCHANGED <<FilterCfg, sent, panicked, beat, delivered>>
 
 \* the service serving connection k emits an event (field "service" is whatever the service sets: most set none)
 Emit(k, svcField) ==
   /\ k \in 1..Len(conns) /\ conns[k].svc # "none" /\ k \notin panicked
   /\ LET ev == [id |-> Len(sent) + 1, conn |-> k, cat |-> [k |-> "str", v |-> CatOf[conns[k].svc]], svc |-> svcField,
-                src |-> conns[k].c.src, token |-> Token, fatal |-> FALSE]
+                src |-> conns[k].c.src, token |-> Token, fatal |-> FALSE, seq |-> -1]
      IN /\ sent' = Append(sent, ev)
         /\ delivered' = B!Fanout(B!Subs(FilterCfg), ev, delivered)
-  /\ UNCHANGED <<FilterCfg, conns, panicked>>
+  /\ UNCHANGED <<FilterCfg, conns, panicked, beat>>
 
 \* the handler of connection k panics: the server recovers, reports ONE event of fatal severity with the connection's
 \* addresses (it has neither category nor service field) and closes the connection; nothing else is affected
 Panic(k) ==
   /\ k \in 1..Len(conns) /\ conns[k].svc # "none" /\ k \notin panicked
   /\ LET ev == [id |-> Len(sent) + 1, conn |-> k, cat |-> [k |-> "missing"], svc |-> [k |-> "missing"],
-                src |-> conns[k].c.src, token |-> Token, fatal |-> TRUE]
+                src |-> conns[k].c.src, token |-> Token, fatal |-> TRUE, seq |-> -1]
      IN /\ sent' = Append(sent, ev)
         /\ delivered' = B!Fanout(B!Subs(FilterCfg), ev, delivered)
   /\ panicked' = panicked \cup {k}
-  /\ UNCHANGED <<FilterCfg, conns>>
+  /\ UNCHANGED <<FilterCfg, conns, beat>>
+
+\* the sensor's own sign of life: category "heartbeat", no connection, sequence number = number of earlier heartbeats;
+\* it goes through the same filters as every other event
+Heartbeat ==
+  /\ LET ev == [id |-> Len(sent) + 1, conn |-> 0, cat |-> [k |-> "str", v |-> <<"h","e","a","r","t","b","e","a","t">>], svc |-> [k |-> "missing"],
+                src |-> "", token |-> Token, fatal |-> FALSE, seq |-> beat]
+     IN /\ sent' = Append(sent, ev)
+        /\ delivered' = B!Fanout(B!Subs(FilterCfg), ev, delivered)
+  /\ beat' = beat + 1
+  /\ UNCHANGED <<FilterCfg, conns, panicked>>
 
 \* ---- properties ---------------------------------------------------------------------------
 \* routing and fan-out compose: every channel holds exactly what its filters admit, in order (Bus's properties
@@ -60,7 +71,7 @@ ExactlyAdmitted == B!ExactlyAdmitted
 OrderPreserved == B!OrderPreserved
 \* an event names the connection that caused it: its source is that connection's, its category the category of
 \* the service the routing rule chose for that connection, and it carries the token
-Attributed == \A n \in 1..Len(sent) :
+Attributed == \A n \in 1..Len(sent) : sent[n].conn # 0 =>
                 LET ev == sent[n] k == ev.conn IN
                 /\ k \in 1..Len(conns) /\ conns[k].svc # "none"
                 /\ ev.src = conns[k].c.src
@@ -71,6 +82,8 @@ OneFatalPerPanic == \A k \in 1..Len(conns) :
                       LET idx == { n \in 1..Len(sent) : sent[n].conn = k /\ sent[n].fatal } IN
                       /\ Cardinality(idx) = (IF k \in panicked THEN 1 ELSE 0)
                       /\ \A n \in idx : ~\E m \in (n + 1)..Len(sent) : sent[m].conn = k
+\* heartbeats are numbered 0, 1, 2, ... in the order they are sent
+HeartbeatsNumbered == LET hb == SelectSeq(sent, LAMBDA e : e.conn = 0) IN \A i \in 1..Len(hb) : hb[i].seq = i - 1
 \* a connection nobody accepts produces nothing
 SilentIfUnrouted == \A k \in 1..Len(conns) : conns[k].svc = "none" => ~\E n \in 1..Len(sent) : sent[n].conn = k
 =============================================================================
